@@ -902,6 +902,12 @@ func (c *TermCtx) Floor(a *Term) *Term { // Real -> Int
 	if a.Op == OpToReal {
 		return a.Args[0]
 	}
+	// floor(n/d) of integers: integer division (SMT div is floor division for a positive divisor)
+	if a.Op == OpDiv && a.Args[0].Op == OpToReal && a.Args[1].Op == OpToReal {
+		n, d := a.Args[0].Args[0], a.Args[1].Args[0]
+		zero := c.IntConst(0)
+		return c.Ite(c.Lt(zero, d), c.IDiv(n, d), c.IDiv(c.Neg(n), c.Neg(d)))
+	}
 	return c.mk(&Term{Op: OpToInt, Sort: SInt, Args: []*Term{a}})
 }
 
